@@ -1,8 +1,9 @@
 ---------------------------- MODULE StretchTrace ----------------------------
 (***************************************************************************)
 (* Trace validation for Stretch.  A trace is                               *)
-(*   [cfg |-> [n, allow_delay], steps |-> << [s, o], ... >>]               *)
-(* one record per clock cycle: s = strobe input of the cycle, o = output   *)
+(*   [cfg |-> [n, allow_delay], steps |-> << [s, x, o], ... >>]            *)
+(* one record per clock cycle: s = strobe input, x = reset of the clock    *)
+(* domain asserted in the cycle, o = output                                *)
 (* observed in the same cycle (after the input settled, before the edge).  *)
 (* `cands` is the set of delays still consistent with everything observed  *)
 (* (subset construction: the validation stays deterministic).              *)
@@ -25,7 +26,7 @@ TInit == /\ tid \in 1..Len(Logs)
 TNext == /\ status = "ok"
          /\ l <= Len(Logs[tid].steps)
          /\ LET r == Logs[tid].steps[l] IN
-              /\ Step(r.s)
+              /\ Step(r.s, r.x)
               /\ LET ok == {d \in cands : OutFor(d)' = r.o} IN
                    /\ cands' = (IF ok = {} THEN cands ELSE ok)
                    /\ status' = (IF ok = {} THEN "output" ELSE "ok")
